@@ -725,7 +725,7 @@ class Engine:
                     c = v.f.get(p[1])
                     if c is None:
                         if v.backing is not None:
-                            c = v.field(self, p[1], p[2])
+                            c = v.field(self, p[1], self.subst_ty(p[2], fr) if fr.subst else p[2])
                         elif for_write:
                             c = Cell(None)
                             v.f[p[1]] = c
@@ -743,7 +743,7 @@ class Engine:
                     c = d.get(p[1])
                     if c is None:
                         if v.backing is not None:
-                            c = v.field(self, variant, p[1], p[2])
+                            c = v.field(self, variant, p[1], self.subst_ty(p[2], fr) if fr.subst else p[2])
                         elif for_write:
                             c = Cell(None)
                             d[p[1]] = c
@@ -751,7 +751,7 @@ class Engine:
                             raise Unsupported(f'payload {variant}.{p[1]} of {v!r} missing in {fr.fn.name}')
                     cell = c
                     variant = None
-                elif (t is Ref or t is SliceRef) and re.match(r'(std|core)::ptr::(Unique|NonNull)<|\*(const|mut) ', p[2]):
+                elif (t is Ref or t is SliceRef or getattr(v, 'is_pointer_like', False)) and re.match(r'(std|core)::ptr::(Unique|NonNull)<|\*(const|mut) ', p[2]):
                     pass    # Box<T> / Unique<T> / NonNull<T> are the pointer they wrap
                 else:
                     fld = getattr(v, 'mir_field', None)
@@ -922,7 +922,7 @@ class Engine:
             return bv((1 << (w - 1)) - 1 if sg else (1 << w) - 1, w)
         m = re.match(r'^ZeroSized: \{((?:closure|coroutine)@[^}]*)\}$', s)
         if m:
-            return ClosureV(m.group(1), Struct('closure', []))
+            return ClosureV(m.group(1), Struct('closure', []), dict(fr.subst) if fr is not None and fr.subst else None)
         if s.startswith('"'):
             return StrV(unescape(s[1:-1]))
         if s.startswith('b"'):
@@ -1042,7 +1042,7 @@ class Engine:
             return ConcSeq(ety, [Cell(self.copy_value(v)) for _ in range(n)])
         if k == 'closure':
             caps = Struct('closure', [Cell(self.operand(fr, o)) for _, o in rv[2]])
-            return ClosureV(rv[1], caps)
+            return ClosureV(rv[1], caps, dict(fr.subst) if fr is not None and fr.subst else None)
         if k == 'nullop':
             return self.nullop(fr, rv[1], rv[2])
         raise Unsupported(f'rvalue {rv} in {fr.fn.name}')
@@ -1462,6 +1462,12 @@ class Engine:
             r = self.call_value(fr, fv, args, dest)
         else:
             norm = normalise_callee(callee)
+            if fr.subst and callee.startswith('<'):
+                # `<K as Trait>::m` inside a generic body: the models and the resolution see the instantiated self type
+                m_ = re.match(r'^<(\w+) as ', callee)
+                if m_ and m_.group(1) in fr.subst:
+                    callee = '<' + fr.subst[m_.group(1)] + callee[1 + len(m_.group(1)):]
+                    norm = normalise_callee(callee)
             dty = self.place_ty(fr, dest) if dest is not None else None
             mdl = self.find_model(norm)
             r = NotImplemented
@@ -1537,7 +1543,7 @@ class Engine:
                 raise Unsupported('closure body not found: ' + fv.loc)
             a0ty = norm_ty(f.args[0][1])
             selfarg = Ref(Cell(fv)) if a0ty.startswith('&') else fv
-            return self.exec_fn(f, [selfarg] + list(args), (fr.depth + 1) if fr else 0, None)
+            return self.exec_fn(f, [selfarg] + list(args), (fr.depth + 1) if fr else 0, fv.subst)
         if isinstance(fv, Ref):
             return self.call_value(fr, fv.cell.get(self), args, dest)
         cv = getattr(fv, 'call', None)
